@@ -295,7 +295,8 @@ theorem drained_allFinished {s : St} (i : Inv4 s) (d : Drained s) : allFinished 
 because the id was already in flight (known finding F3). -/
 theorem monEnd_of_finished {m : Mon} {s : St} (mr : MonReqs m s) (i : Inv4 s)
     (hall : ∀ (r : Nat) (k : ReqCore), s.cores[r]? = some k → k.pc = .fin) :
-    ∀ c, monEndT m none = some c → ∃ r q, c = .c02Dropped r ∧ m.reqs[r]? = some q ∧ q.dup = true := by
+    ∀ c, monEndT m none = some c →
+      ∃ r q, c = .c02Dropped r ∧ m.reqs[r]? = some q ∧ q.dup = true ∧ q.isNotif = false := by
   intro c hc
   simp only [monEndT] at hc
   obtain ⟨⟨q, r⟩, hx, hf⟩ := List.exists_of_findSome?_eq_some hc
@@ -307,7 +308,8 @@ theorem monEnd_of_finished {m : Mon} {s : St} (mr : MonReqs m s) (i : Inv4 s)
     split at hf
     · rename_i hdup
       cases hf
-      exact ⟨r, q, rfl, hq, hdup⟩
+      simp only [Bool.and_eq_true, Bool.not_eq_true', beq_iff_eq] at hcond
+      exact ⟨r, q, rfl, hq, hdup, hcond.1.1⟩
     · rename_i hdup
       exfalso
       simp only [Bool.and_eq_true, Bool.not_eq_true', beq_iff_eq] at hcond
